@@ -75,7 +75,16 @@ def corpus():
     mp = {"p": 1, "i": 1, "a": [[1, {"p": 2, "i": 2, "a": [[1, _t(1.0)], [2, _t(-1.0)]]}],
                                 [2, {"p": 2, "i": 2, "a": [[1, _t(-1.0)], [2, _t(1.0)]]}]]}
     named = [[[1, [[1, f2b(1.0)]]]], [[2, [[1, f2b(0.5)], [2, f2b(0.5)]]]]]
-    return [build(1000000, mp, {"nodes": 7, "shared_uses": 1}, named=named)]
+    # repaired D16: the reach of player one's infoset 3 is 1e-300 * 1e-300 = 0 in binary64; the regret of playing
+    # "left" at the root (1.0) must still be reported
+    x = {"p": 1, "i": 3, "a": [[1, _t(5.0)], [2, _t(-5.0)]]}
+    b = {"p": 2, "i": 5, "a": [[1, x], [2, _t(1.0)]]}
+    a = {"p": 2, "i": 4, "a": [[1, b], [2, _t(1.0)]]}
+    d16 = {"p": 1, "i": 1, "a": [[1, _t(0.0)], [2, a]]}
+    named16 = [[[1, [[1, f2b(1.0)]]], [3, [[2, f2b(1.0)]]]],
+               [[4, [[1, f2b(1e-300)], [2, f2b(1.0)]]], [5, [[1, f2b(1e-300)], [2, f2b(1.0)]]]]]
+    return [build(1000000, mp, {"nodes": 7, "shared_uses": 1}, named=named),
+            build(1000001, d16, {"nodes": 9, "shared_uses": 0}, named=named16)]
 
 
 def monitor(cb, impl):
